@@ -36,13 +36,15 @@ Definition ids_unique (s : st) : Prop :=
   forall i j mi mj, slot s i = Some mi -> slot s j = Some mj -> r_id mi = r_id mj -> i = j.
 
 (* the regions file mirrors the table: a slot that was ever written holds the current
-   metadata; a region still in state NEEDS_WRITE was never written and is empty *)
+   metadata; a region still in state NEEDS_WRITE was never written and is empty.
+   (r_dmax m = 0 implies m_is_dirty m = false; the weaker `m_is_dirty m = false` is not
+   inductive: mark_dirty(0,0) on bounds (5,3) gives the dirty (0,3).) *)
 Definition rfile_mirrors (s : st) : Prop :=
   forall i,
     match slot s i with
     | Some m =>
         if r_state m =? ST_WRITE
-        then get (rfile s) i = Some None /\ r_len m = 0 /\ m_is_dirty m = false
+        then get (rfile s) i = Some None /\ r_len m = 0 /\ r_dmax m = 0
         else get (rfile s) i = Some (Some (r_start m, r_len m, r_reserved m, r_id m))
     | None => get (rfile s) i = Some None \/ get (rfile s) i = None
     end.
